@@ -815,6 +815,23 @@ class Evaluator:
                     path.append(("attr0", fld))
                     self._alias_local = (e.id, fld)
                     return ("self", fld), path[::-1]
+                lv = st.locs.get(e.id) if self.recv is not None else None
+                la = lv.single_atom() if isinstance(lv, R) else None
+                if la is not None and la[0] == "sub" and isinstance(la[1], R):
+                    # a local bound to an entry of the container a self attribute holds (row = self.table[k]; row[j] = v)
+                    fld = self._alias_of_attr(la[1], st)
+                    if fld is not None:
+                        path.append(("item", la[2]))
+                        path.append(("attr0", fld))
+                        return ("self", fld), path[::-1]
+                if la is not None and la[0] in ("mcall", "call", "dict", "list", "new"):
+                    # ... or to the very object stored under a key a moment ago (self.table[k] = fresh(); row = self.table[k])
+                    for k_, val in st.attrs.items():
+                        va = val.single_atom() if isinstance(val, R) else None
+                        if va is not None and va[0] == "setitem" and va[3] is lv:
+                            path.append(("item", va[2]))
+                            path.append(("attr0", k_))
+                            return ("self", k_), path[::-1]
                 return ("local", e.id), path[::-1]
             elif isinstance(e, ast.Call):
                 g = self._static_getattr(e, st)
